@@ -6,6 +6,7 @@ answer  : OK | c=.. | d=.. | l=.. | f=.. | u=.. | m=..   or   ERR <kind> ..   or
 import Driver.L1
 import Emu8086.Model.Asm
 import Emu8086.Model.Norm
+import Emu8086.Spec.Cond
 import Emu8086.Model.ILex
 
 namespace Driver
@@ -89,6 +90,24 @@ def handleL3 (req ans : String) : Verdict :=
       { model := if ok then ans else m, specOk := specOk,
         spec := s!"accepted, and the emitted line means `{expLine}` (same instruction, same operand parts, same effective segment)", nontrivial := true }
     | _, _ => bad
+  | ["jsp", e, nm] =>
+    match pctDecode e with
+    | some src =>
+      let (m, ok) := asmVerdict src ans
+      -- independent reader (C06): the emitted jump, read by the interpreter model, must belong to the
+      -- condition class the Intel table gives for the mnemonic as written in the source
+      let c := ((ans.splitOn " | ").find? (·.startsWith "c=")).getD "c=-"
+      let lines := if c == "c=-" then [] else ((c.drop 2).toString.splitOn ";").filterMap pctDecode
+      let want := (Emu8086.Spec.intelJumps.lookup (nm.toList.map Emu8086.Spec.lowerC)).map Emu8086.Spec.canon
+      let jumps := lines.filterMap fun l => match parseLine l with
+        | some (.jcc j tgt) => some (j, tgt)
+        | _ => none
+      let specOk := match jumps with
+        | [(j, tgt)] => want == some (Emu8086.Spec.canon j) && tgt == "tgt"
+        | _ => false
+      { model := if ok then ans else m, specOk := specOk,
+        spec := s!"accepted, and the emitted line is a jump to `tgt` of the condition class Intel gives for `{nm}`", nontrivial := true }
+    | _ => bad
   | ["asm2", e1, e2, expV] =>
     match pctDecode e1, pctDecode e2, ans.splitOn " || " with
     | some s1, some s2, [a1, a2] =>
